@@ -108,6 +108,8 @@ fn voting_thread(
                         *track_id += 1;
                         *track_id
                     };
+                    #[cfg(similari_verif)]
+                    crate::verif_hooks::point("voting.id.assigned", scene_id, tid);
                     let track_id: u64 = if let Some(dest) = winners.get(&source) {
                         let dest = dest[0];
                         if dest == source {
